@@ -129,7 +129,11 @@ class UnitBuilder:
             text = src.item(kind, nme.strip())
             is_fn = kind == 'fn'
             name = sel
-        raw_sha = rsx.sha(text)
+        raw_sha = rsx.sha(rsx.norm(text))
+        for d in directives:
+            if d[0] == 'fingerprint' and d[1].strip() != raw_sha:
+                # an ASSUMED (unverified) function is pinned to the text its contract was argued for
+                raise AnchorError('assumed function %s changed (fingerprint %s, expected %s): its assumed contract is no longer backed' % (name, raw_sha, d[1].strip()))
         if sel.startswith('struct '):
             vis = 'struct'
         elif sel.startswith('impl ') and ':: fn ' not in sel:
@@ -302,7 +306,7 @@ class UnitBuilder:
                 parts = s[1:].split(None, 1)
                 k = parts[0]
                 arg = parts[1] if len(parts) > 1 else ''
-                if k in ('ret', 'sigcheck', 'attr', 'rename', 'rule', 'host', 'stub'):
+                if k in ('ret', 'sigcheck', 'attr', 'rename', 'rule', 'host', 'stub', 'fingerprint'):
                     ds.append((k, arg))
                 elif k == 'loop':
                     a = arg.split()
